@@ -89,12 +89,18 @@ Definition mem_outputs_orig (ops : list op) : option (list out) := mem_run_gen f
 
 (* ---- hypotheses of the theorems, as executable predicates on the operations ---- *)
 Definition LIM : N := 2147483648.           (* 2^31 *)
-(* all sequence numbers and control values below 2^31 *)
+(* Control values: the whole range of the API type `unsigned` (< 2^32).  Both persisters keep them
+   exactly (FilePersister packs sender into the 64-bit _offset and target into the int32 _size of
+   the index record: a target >= 2^31 is negative in memory and comes back unchanged through the
+   conversion to unsigned; on disk it is the same 4 little-endian bytes).
+   Message sequence numbers: below 2^31.  Some bound below 2^32 - 1 is needed because
+   find_nearest_highest_seqnum's loop `for (s = requested; s <= last; ++s)` does not terminate for
+   last = 2^32 - 1; 2^31 is chosen for convenience. *)
 Definition op_bounded (o : op) : bool :=
   match o with
   | OPut seq _ => seq <? LIM
   | OGet seq => seq <? LIM
-  | OCtlPut s t => (s <? LIM) && (t <? LIM)
+  | OCtlPut s t => (s <? W32) && (t <? W32)
   | ONearest req last => (req <? LIM) && (last <? LIM)
   | ORange from to abort => (from <? LIM) && (to <? LIM)
   | _ => true
